@@ -97,6 +97,7 @@ class Run(object):
         self.stats_switches = 0
         self.stats_lines = 0
         self.pre_step = None     # harness hook: called by the _Step wrapper before each _Step
+        self.map_budget = None   # liveness bound counted in map calls (ensemble steps); None = unbounded
 
     def __reduce__(self):
         # the simulator is not part of the system: a pickle only ever refers to "the current run"
